@@ -283,12 +283,15 @@ def error_to_message(old_pr, log):
                     raise ValueError(
                         "Exception to_message failed to produce a response message"
                     )
+                # Inside the try block as well: a message that can not be
+                # sent (eg. because it can not be serialized) is as much a
+                # failure of the rendering as one that was not produced.
+                old_pr.add_response(msg, is_last=True)
             except Exception as e2:
                 log.error(
                     "Rendering the renderable exception failed: %r", e2, exc_info=e2
                 )
-                msg = Message(code=INTERNAL_SERVER_ERROR)
-            old_pr.add_response(msg, is_last=True)
+                old_pr.add_response(Message(code=INTERNAL_SERVER_ERROR), is_last=True)
         else:
             log.error(
                 "An exception occurred while rendering a resource: %r", e, exc_info=e
